@@ -163,6 +163,29 @@ def lean_audit(prop_id, prop_file):
                 axioms_used=sorted({a for n in names for a in axioms.get(n, [])}), theorems=names)
 
 
+def knee_modules(prop_file):
+    """Knee.* modules transitively imported by the property file (the proof's own code, not Mathlib/core)"""
+    seen, todo = [], [prop_file[:-5].replace('/', '.')]
+    while todo:
+        m = todo.pop()
+        if m in seen:
+            continue
+        seen.append(m)
+        path = os.path.join(LEAN_DIR, m.replace('.', '/') + '.lean')
+        if os.path.exists(path):
+            for imp in re.findall(r'^import\s+(Knee\.\S+)', open(path).read(), flags=re.M):
+                todo.append(imp)
+    return seen
+
+
+def lean_recheck(prop_file):
+    """thorough tier: replay the compiled declarations of the property's modules through leanchecker (independent kernel re-check)"""
+    mods = knee_modules(prop_file)
+    t0 = time.time()
+    p = subprocess.run(['lake', 'env', 'leanchecker'] + mods, cwd=LEAN_DIR, capture_output=True, text=True)
+    return dict(modules=mods, ok=p.returncode == 0, seconds=round(time.time() - t0, 1), output=(p.stdout + p.stderr)[-500:])
+
+
 class Driver:
     """Long-lived Lean model process speaking the line protocol."""
 
@@ -440,6 +463,7 @@ def write_evidence(ctx, audit, level='proof', extra_cov=None, assumptions=None, 
         inconclusive_near_tie=ctx.inconclusive,
         families=ctx.families, n_histogram=ctx.nhist, branch_tags=ctx.tags,
         lean_build_s=ctx.log.get('lean_build_s'),
+        leanchecker=audit.get('leanchecker'),
     )
     if extra_cov:
         cov.update(extra_cov)
@@ -471,6 +495,11 @@ def run_property(mod, prop_id, tier, seed, replay=None):
             audit = lean_audit(prop_id, mod.PROP_FILE)
             for pr in audit['problems']:
                 ctx.fail('proof', 'axiom-audit', mod.PROP_FILE, {}, pr)
+            if tier == 'thorough':
+                rc_ = lean_recheck(mod.PROP_FILE)
+                audit['leanchecker'] = rc_
+                if not rc_['ok']:
+                    ctx.fail('proof', 'leanchecker', mod.PROP_FILE, {}, rc_['output'])
         if ok:
             if replay:
                 mod.replay(ctx, json.load(open(replay)))
